@@ -229,6 +229,22 @@ def run_verus_unit(u, workdir, tier, do_canaries=True):
         res['undecided'].append('extraction: %s' % e)
         res['wall'] = time.time() - t0
         return res
+    if u.get('schema_sha256'):
+        # a unit whose contracts were GENERATED from the .mol schemas: if the schemas changed since, the contracts no longer
+        # say what the schema says -- undecided until regenerated (tools/gen_c15_dyn.py)
+        dg = hashlib.sha256()
+        try:
+            for sname in ('blockchain', 'extensions', 'protocols'):
+                with open(os.path.join(REPO, 'util/gen-types/schemas', sname + '.mol'), 'rb') as f:
+                    dg.update(f.read())
+        except OSError as e:
+            res['undecided'].append('extraction: schema file: %s' % e)
+            res['wall'] = time.time() - t0
+            return res
+        if dg.hexdigest() != u['schema_sha256']:
+            res['undecided'].append('the molecule schemas changed since the contracts of unit %s were generated from them' % unit)
+            res['wall'] = time.time() - t0
+            return res
     path = os.path.join(workdir, unit + '.rs')
     with open(path, 'w') as f:
         f.write(text)
@@ -291,6 +307,10 @@ def run_verus_unit(u, workdir, tier, do_canaries=True):
         targets = [f for f in meta['functions'] if f['has_contract']]
         skip = set(u.get('no_canary', []))
         targets = [f for f in targets if f['function'] not in skip]
+        if u.get('canary_only'):
+            # big generated units of uniform contracts WITHOUT preconditions: vacuity can only come from the shared prelude
+            # (assumed callee contracts, axioms), so one representative function per kind carries the canary
+            targets = [f for f in targets if any(c in f['function'] for c in u['canary_only'])]
 
         def one(f):
             try:
@@ -315,6 +335,29 @@ def run_verus_unit(u, workdir, tier, do_canaries=True):
             if sres.get('success'):
                 return f['function'], 'VACUOUS'
             return f['function'], 'inconclusive'
+        if u.get('canary_mode') == 'all':
+            # big generated units: ONE extra run in which every function under contract carries `ensures false`; each of them
+            # has to be refuted on its own canary line
+            try:
+                ctext, cmeta, _ = assemble_verus.assemble(u['_path'], REPO, canary='all')
+                cpath = os.path.join(workdir, '%s_canary_all.rs' % unit)
+                with open(cpath, 'w') as fh:
+                    fh.write(ctext)
+                cr = verus_run(cpath, rlimit, timeout=u.get('timeout', 600))
+                canary_lines = sorted(ln for ln, v in cmeta['ob_lines'].items() if v == '@canary')
+                hit_lines = set()
+                for d in cr['diags']:
+                    if d.get('level') != 'error':
+                        continue
+                    for sp in d.get('spans', []):
+                        for ln in range(sp['line_start'], sp['line_end'] + 1):
+                            if cmeta['ob_lines'].get(ln) == '@canary':
+                                hit_lines.add(ln)
+                res['canaries']['all'] = 'refuted(ok)' if canary_lines and set(canary_lines) == hit_lines else \
+                    'not refuted on %d of %d canary lines' % (len(set(canary_lines) - hit_lines), len(canary_lines))
+            except Exception as e:  # noqa
+                res['canaries']['all'] = 'error: %s' % e
+            targets = []
         with cf.ThreadPoolExecutor(max_workers=int(os.environ.get('VERIF_JOBS', '8'))) as ex:
             for fn, r in ex.map(one, targets):
                 res['canaries'][fn] = r
